@@ -3,7 +3,7 @@ import core
 import gen
 from core import PANIC, ANY
 from props.common import default_encode, default_decode
-from props import c01, c02, c03, c04
+from props import c01, c02, c03, c04, c10
 
 PROP = 'C17'
 BIN = 'c17'
@@ -75,6 +75,13 @@ def requests(cfg, rng, n, tier, part, nparts, st):
         else:
             vals = [gen.value(cfg, rng) for _ in range(k)]
         yield 'fold', tuple(vals)
+    if part == 0 and cfg.n >= 3 and cfg.bits <= 512:
+        # long iterators: many elements with large low digits and zero top digits (the exact sum is representable); per-column
+        # accumulators of a vectorised Sum would overflow where the left fold does not
+        for cnt in ((300, 700) if cfg.dbits == 8 else (300,)) + ((66000,) if tier == 'thorough' and cfg.dbits == 16 and cfg.bits <= 96 else ()):
+            lowbits = cfg.dbits * (cfg.n - 2)
+            vals = [cfg.wrap(((1 << lowbits) - 1) - rng.getrandbits(max(1, lowbits - 4)) % (1 << max(1, lowbits - 4)) // 16) for _ in range(cnt)]
+            yield 'fold', tuple(vals)
     for _ in range(n1):
         a = gen.value(cfg, rng)
         d = rng.choice((1, 2, cfg.B - 1, rng.randrange(1, cfg.B)))
@@ -88,6 +95,13 @@ def requests(cfg, rng, n, tier, part, nparts, st):
             s = b'+' + s
         elif m < 0.25:
             s = rng.choice((b'', b'-', b'+', b'12a', b' 1', b'0x10', str(cfg.max + 1).encode(), str(cfg.min - 1).encode(), b'00000' + s))
+        elif m < 0.55:
+            # the mutated numerals of the C10 generator (signs and other characters inserted at arbitrary positions, leading zeros, ...)
+            s = c10.gen_string(cfg, rng)[0]
+            try:
+                s.decode('utf8')
+            except UnicodeDecodeError:
+                s = b'0+5'
         yield 'misc', (a, gen.value(cfg, rng), d, s)
 
 
